@@ -43,6 +43,7 @@ PROP = dict(
               'Fit.C10.C10_restore_exact_native', 'Fit.C10.C10_restore_exact_desc', 'Fit.C10.C10_rescale_witness_arith'],
     families=[dict(name='validate', prop=True), dict(name='proto-validate', prop=True)],
     trusted_base=STD_TRUST + [
+        "several sequences through ONE real Encoder (one Encode per sequence: a chain) / StreamEncoder (SequenceCompleted between them) and Encoder.Reset / StreamEncoder.Reset with the same validator object: gate lines with the separators seq / reset; the model answers every sequence from a fresh validator state (gateBatch from {}, gateStream from {} after a separator) — that the encoder's reset() gives the validator back fresh is thereby tied, not modelled",
         "scaleoffset.DiscardValue on float64-typed values (binary64 arithmetic + conversion) is a parameter D of the validator model; the theorems of FitProps/C10.lean hold for every D (those with the arithmetic inside are in FitProps/C10Arith.lean). Every operation line that involves that arithmetic or a factory look-up runs TWICE: once with the results of the real function carried in the line (dv: / fac: tables, as before) and once with the arithmetic INSIDE the model (dv:= -> Fit.ValidatorA.D = Fit.ScaleOffset.discardValue over the binary64 model Fit.F64, the definitions of C12's theorems; fac:s/= -> Fit.ValidatorA.stdFactory, read from Generated/ValidatorFactory.lean): such a line carries the messages and the options only",
         "Generated/ValidatorFactory.lean (every field of factory.StandardFactory(): name known, base type, scale, offset) is printed on every run by `fitharness regen validatorfac` from the compiled packages; Generated/ProfileArith.lean by C12's translator. A custom factory (encoder.ValidatorWithFactory) is an option of the validator: its table is an input of the line in both modes",
         "F64 models NaN as one canonical quiet NaN: a line that restores a NaN into a float32/float64 base type (payload decides Valid()) stays in carried mode only (counted: arith-outside-nan-payload); float -> integer conversion of NaN / ±Inf / out-of-range values is platform-defined in Go: the model reproduces amd64 on such lines (counted: arith-inside-platform-defined) and the theorems about exact results prove their domain free of them",
